@@ -48,7 +48,20 @@ def fast_select():
     return Chart(State('scxml', children=[s0]), 'lua'), ['a']
 
 
+def nested_history_tables():
+    s2 = S('s2')
+    h1 = State('history', id='h1', hist_type='shallow', transitions=[Trans(targets=['s2'])])
+    s1 = S('s1', s2, h1)
+    h0 = State('history', id='h0', hist_type='deep', transitions=[Trans(targets=['s1'])])
+    s0 = S('s0', s1, h0)
+    return Chart(State('scxml', children=[s0]), 'null'), []
+
+
 if __name__ == '__main__':
+    ch, ev = nested_history_tables()
+    write(os.path.join(VERIF, 'corpus/C05/known/F-C05-1.json'), 'C05', 'table-mismatch', ch, ev,
+          "shallow history nested below a deep history's parent: the transpilers hand every descendant to the first history in "
+          "post-fix order of the (re-sorted) DOM, which is the outer deep one, so the inner history's completion is empty")
     ch, ev = large_select()
     write(os.path.join(VERIF, 'corpus/C01/known/F-C01-1.json'), 'C01', 'trace-mismatch', ch, ev,
           "targetless transition on a parallel state plus conflicting transitions in all regions: W3C takes the first region's only")
